@@ -36,7 +36,7 @@ func (a *An) smpFinalComparisons(rule string) {
 		}
 		a.R.Check(n == 1, rule, "generateSMP3Message|papb-store", "papb is computed once", a.C.Pos(f.Pos()), fmt.Sprintf("%d", n))
 		for _, st := range a.DirectStoresTo(a.MustField("smp3Message", "pa")) {
-			if st.Parent() == f {
+			if a.C.within(st, f) {
 				a.TermIs(rule, "generateSMP3Message|pa", "Pa = g3^r4 with g3 = g3b^a3", st, st.Val, "modExpP(modExpP(smp2Message.g3b, smp1State.a3), smp3State.r4)")
 			}
 		}
@@ -153,7 +153,7 @@ func (a *An) c11Secret() {
 		fld := a.MustField("smp", "secret")
 		n := 0
 		for _, st := range a.DirectStoresTo(fld) {
-			if st.Parent() != fn {
+			if !a.C.within(st, fn) {
 				continue
 			}
 			n++
@@ -287,7 +287,7 @@ func (a *An) c11Secret() {
 		}
 		n := 0
 		for _, st := range a.DirectStoresTo(a.MustField(g.typ, g.fld)) {
-			if st.Parent() == fn {
+			if a.C.within(st, fn) {
 				n++
 				a.TermIs(rule, g.fn+"|"+g.fld, "exponent "+g.fld, st, st.Val, "$secret")
 			}
